@@ -87,6 +87,10 @@ func installGate() {
 
 // newGatedAdapter builds a session-aware adapter whose cleaner is parked at the yield point.
 func newGatedAdapter(window time.Duration, store adapter.SocketStore) (adapter.Adapter, *cleanerGate) {
+	return newGatedAdapterWith(window, store, jsonparser.NewCreator(0, stdjson.New()))
+}
+
+func newGatedAdapterWith(window time.Duration, store adapter.SocketStore, pc parser.Creator) (adapter.Adapter, *cleanerGate) {
 	installGate()
 	g := &cleanerGate{arrived: make(chan struct{}), grant: make(chan struct{})}
 	gateCreate.Lock()
@@ -95,7 +99,7 @@ func newGatedAdapter(window time.Duration, store adapter.SocketStore) (adapter.A
 	gatePending = g
 	gateMu.Unlock()
 	creator := adapter.NewSessionAwareAdapterCreatorVerif(window, time.Nanosecond)
-	a := creator(store, jsonparser.NewCreator(0, stdjson.New()))
+	a := creator(store, pc)
 	<-g.arrived
 	return a, g
 }
@@ -511,6 +515,7 @@ func sessionMain(args []string) error {
 	maxOps := fs.Int("maxops", 25, "max ops per random history")
 	tick := fs.Int("tick", 20, "tick in ms (timed histories)")
 	par := fs.Int("par", 8, "timed histories run in parallel")
+	bin := fs.Bool("bin", false, "live: include binary events")
 	outp := fs.String("out", "-", "")
 	fs.Parse(args)
 	out, err := vk.NewOut(*outp)
@@ -520,7 +525,7 @@ func sessionMain(args []string) error {
 	defer out.Close()
 	switch *mode {
 	case "live":
-		return sessionLive(out, *seed, *n)
+		return sessionLive(out, *seed, *n, *bin, *par)
 	case "exhaustive":
 		genExhaustive(*length, func(c *sessCase) { runSessCase(c); out.Put(c) })
 		return nil
@@ -571,5 +576,3 @@ func sessionMain(args []string) error {
 	}
 	return fmt.Errorf("unknown mode %q", *mode)
 }
-
-func sessionLive(out *vk.Out, seed uint64, n int) error { return fmt.Errorf("not yet") }
